@@ -275,9 +275,7 @@ func c20one(w *W, kind, layout string, G, N, k int, mode string, idx int) {
 	}
 	if lost == 0 && len(acked) > 0 {
 		w.Distinct(fmt.Sprintf("%s|%s|G%d|%s|k%d", kind, layout, G, mode, k))
-		if idx == 0 {
-			w.Sample(cs)
-		}
+		w.Sample(cs)
 	}
 }
 
